@@ -39,7 +39,7 @@ PLAN = {
                       "hashes of the full I/O event sequence and result"),
                 exhaustive_subspaces=["per scenario: every fault index n < N for N <= 1500 events (strided above), every fault kind"],
                 quick=[("c13", "release", 1500)],
-                thorough=[("c13", "release", 40000), ("c13", "checked", 6000)],
+                thorough=[("c13", "release", 220000), ("c13", "checked", 40000)],
                 assumptions=["hard faults are ErrorKind::Other / StorageFull / Ok(0); an injected UnexpectedEof is indistinguishable from a real end and is excluded",
                              "nothing is asserted about calls made after the first Err"]),
     "C14": dict(level="fault_enumeration",
@@ -49,7 +49,7 @@ PLAN = {
                       "reader = one evaluation; all are non-trivial; distinct = distinct (I/O event sequence, delivered length) hashes"),
                 exhaustive_subspaces=["per scenario: every write-event crash point; every byte crash point for outputs <= 1500 (quick) / 4096 (thorough) bytes"],
                 quick=[("c14", "release", 1200)],
-                thorough=[("c14", "release", 40000), ("c14", "checked", 5000)],
+                thorough=[("c14", "release", 600000), ("c14", "checked", 100000)],
                 assumptions=["frame boundaries of the append stream come from refflac", "crashes during finalize are outside the property"]),
     "C07": dict(level="exploration",
                 rule=("each run builds a valid file with non-periodic PCM, opens one reader front-end over a SimFile behind drawn benign "
@@ -88,7 +88,7 @@ PLAN = {
                       "call / round trip is one evaluation"),
                 exhaustive_subspaces=["grid part: the full bits x channels x totals sub-grid for each (constructor, rate) slice drawn; 27 slices exist"],
                 quick=[("c15", "release", 600), ("c15", "checked", 300)],
-                thorough=[("c15", "release", 20000), ("c15", "checked", 6000)],
+                thorough=[("c15", "release", 150000), ("c15", "checked", 50000)],
                 assumptions=[]),
     "C16": dict(level="exploration",
                 rule=("sender = FlacStreamWriter emitting 1-8 frames with independently drawn rate/channels/depth/length (through "
@@ -100,7 +100,7 @@ PLAN = {
                       "evaluation; distinct = distinct I/O event sequences"),
                 exhaustive_subspaces=["c16sweep: every split point 1..len-1; EINTR at every fill_buf call index for two segmentations"],
                 quick=[("c16", "release", 20000), ("c16sweep", "release", 300)],
-                thorough=[("c16", "release", 1000000), ("c16", "checked", 100000), ("c16sweep", "release", 20000)],
+                thorough=[("c16", "release", 4000000), ("c16", "checked", 400000), ("c16sweep", "release", 60000)],
                 assumptions=["a returned frame that refflac finds checksum-valid somewhere on the wire is not counted as fabricated"]),
     "C04": dict(level="fault_enumeration",
                 rule=("corpus file = small encoder output (1-4 frames, blocks 16-64, drawn signal/option family) or a libFLAC-made "
@@ -141,7 +141,7 @@ PLAN = {
                       "re-serialise and re-read equal"),
                 exhaustive_subspaces=["c11flips: every single-bit flip of each generated metadata section <= 1500 bytes"],
                 quick=[("c11", "release", 20000), ("c11flips", "release", 150)],
-                thorough=[("c11", "release", 1000000), ("c11", "checked", 100000), ("c11flips", "release", 8000)],
+                thorough=[("c11", "release", 5000000), ("c11", "checked", 500000), ("c11flips", "release", 60000)],
                 assumptions=["value space of blocks is sampled, not enumerated (pure-input quantifier)"]),
     "C18": dict(external="c18check"),
 }
